@@ -20,6 +20,20 @@ type outMsg struct {
 	stage   int // 1 awaiting PUBACK/PUBREC, 2 PUBREC read (PUBREL stage)
 	seq     int
 	collided bool // the client used the same id for a publish of its own while this was outstanding
+	// ownFirst: the broker gave this message an identifier on which an exchange of the client's own (a QoS 1/2
+	// PUBLISH the broker had read and not yet fully answered) was open. The protocol allows it (two independent
+	// spaces); with the broker's shared map it is harmless only as long as the allocator steps around such ids.
+	ownFirst bool
+}
+
+func collisionOrder(m outMsg) string {
+	switch {
+	case m.ownFirst:
+		return "own-exchange-first"
+	case m.collided:
+		return "outbound-first"
+	}
+	return "none"
 }
 
 func sessIDOfConn(c *Conn) string {
@@ -59,6 +73,7 @@ func checkOutboundFlows(r *Result, prop string) []Violation {
 		return U[id]
 	}
 	connSess := map[int]string{}
+	ownOpen := map[string]map[uint16]bool{} // session -> ids of the client's own QoS 1/2 publishes read and not yet fully answered
 	pastRec := map[string]bool{} // "session|payload": the client's PUBREC for this message has been read, PUBCOMP not yet
 	inheriting := map[string]int{} // client id -> connection whose CONNECT is being processed (no CONNACK written yet)
 	limbo := map[string]map[uint16]*outMsg{} // messages "dropped" from the old client object during that time
@@ -96,10 +111,10 @@ func checkOutboundFlows(r *Result, prop string) []Violation {
 				u := get(id)
 				pid := uint16(e.N)
 				if old := u[pid]; old != nil && old.payload != payload && prop == "C10" {
-					out = append(out, viol("C10", "packet-id-reused-while-unacked", fmt.Sprintf("session %q: packet id %d assigned to %q while %q is still unacknowledged under the same id", id, pid, payload, old.payload), e.Seq, "client_used_same_id", fmt.Sprint(old.collided), "rm_limited", sessRMLimited(r, id, e.Seq), "session_taken_over", fmt.Sprint(sessConnections(r, id, e.Seq) > 1)))
+					out = append(out, viol("C10", "packet-id-reused-while-unacked", fmt.Sprintf("session %q: packet id %d assigned to %q while %q is still unacknowledged under the same id", id, pid, payload, old.payload), e.Seq, "client_used_same_id", fmt.Sprint(old.collided), "order", collisionOrder(*old), "rm_limited", sessRMLimited(r, id, e.Seq), "session_taken_over", fmt.Sprint(sessConnections(r, id, e.Seq) > 1)))
 				}
 				if old := u[pid]; old == nil || old.payload != payload {
-					u[pid] = &outMsg{pid: pid, payload: payload, stage: 1, seq: e.Seq}
+					u[pid] = &outMsg{pid: pid, payload: payload, stage: 1, seq: e.Seq, ownFirst: ownOpen[id][pid]}
 					if pastRec[id+"|"+payload] {
 						// the broker re-registers a session's messages when the session is resumed (dropped for the old
 						// client object, published for the new one): the exchange is still past PUBREC
@@ -165,6 +180,10 @@ func checkOutboundFlows(r *Result, prop string) []Violation {
 						if m := u[e.Read.PID]; m != nil {
 							m.collided = true
 						}
+						if ownOpen[id] == nil {
+							ownOpen[id] = map[uint16]bool{}
+						}
+						ownOpen[id][e.Read.PID] = true
 					}
 				case refcodec.PUBREL:
 					// ... nor must the PUBREL that completes the client's own QoS 2 publish with that identifier
@@ -178,6 +197,10 @@ func checkOutboundFlows(r *Result, prop string) []Violation {
 				continue
 			}
 			c := r.Ex.Conns[e.Conn]
+			if t := e.Pkt.Type; t == refcodec.PUBACK || t == refcodec.PUBCOMP || (t == refcodec.PUBREC && e.Pkt.ReasonCode >= 0x80) {
+				// the broker's final answer to a publish of the client's own: that exchange is over
+				delete(ownOpen[sessIDOfConn(c)], e.Pkt.PacketID)
+			}
 			if e.Pkt.Type == refcodec.CONNACK {
 				if inheriting[c.CID] == c.Idx {
 					delete(inheriting, c.CID)
@@ -262,12 +285,14 @@ func checkOutboundFlows(r *Result, prop string) []Violation {
 			m := rc.expect[pid]
 			p := "C09"
 			cls := ""
-			if m.collided {
+			if m.collided || m.ownFirst {
 				p = "C10"
 			}
 			if p != prop {
 				continue
 			}
+			order := collisionOrder(m)
+			n0 := len(out)
 			if m.stage == 1 {
 				found := false
 				for _, pr := range pubs[pid] {
@@ -280,7 +305,7 @@ func checkOutboundFlows(r *Result, prop string) []Violation {
 				}
 				if !found {
 					cls = "unacked-publish-not-redelivered"
-					if m.collided {
+					if m.collided || m.ownFirst {
 						cls = "outbound-lost-after-id-collision"
 					}
 					how := "sent"
@@ -326,6 +351,12 @@ func checkOutboundFlows(r *Result, prop string) []Violation {
 						out = append(out, viol(p, "publish-resent-after-pubrec", fmt.Sprintf("conn %d: message %q (id %d) was past PUBREC but PUBLISH was sent again", rc.conn.Idx, m.payload, pid), pr.Seq))
 						break
 					}
+				}
+			}
+			if p == "C10" {
+				// which side was on the identifier first says which mechanism can account for the collision
+				for i := n0; i < len(out); i++ {
+					out[i].Features["order"] = order
 				}
 			}
 		}
